@@ -32,7 +32,7 @@ func genC35(t *rapid.T) C35Case {
 		c.WL = wl
 	}
 	c.Steps = genEditSteps(t, &wl, rapid.IntRange(1, 5).Draw(t, "nsteps"))
-	c.Sched = Sched{Tape: genTape(t, 500), Disabled: genDisabled(t, incrOptional), PCT: genPCT(t, 200)}
+	c.Sched = Sched{Tape: genTape(t, 500), Disabled: genDisabled(t, incrOptional), PCT: genPCT(t, 200), Tail: genTail(t)}
 	return c
 }
 
